@@ -1,5 +1,5 @@
 (* C05 - DWT back-propagation is the adjoint.  Statements only. *)
-From PW Require Import Base.Ops Base.Sum Base.Sig Base.Tensor Model.Dwt Spec.Line Proofs.DwtNF Proofs.LineTheory Proofs.SfbNF Proofs.C05Proofs.
+From PW Require Import Base.Ops Base.Sum Base.Sig Base.Tensor Model.Dwt Spec.Line Proofs.DwtNF Proofs.LineTheory Proofs.SfbNF Proofs.C05Proofs Proofs.C05Proofs2D.
 
 (* zero padding: <analysis x, g> = <x, transposed convolution (padding L-2) of g>, every L N n h x g *)
 Theorem C05_adjoint_zero_line :
@@ -39,6 +39,42 @@ Theorem C05_afb_per_row :
       = dot Op (tW x) (fun q => tf x n c i q) (fun q => tf dx n c i q))).
 Proof. exact @afb_per_adjoint_row. Qed.
 Print Assumptions C05_afb_per_row.
+
+(* ---- two dimensions: the whole of AFB2D.backward (column synthesis of the cotangent bands, row synthesis, crop to the input size)
+   is the adjoint of AFB2D.forward, for every image size, every filter lengths, every cotangent (lowpass Gl, three detail bands Gh);
+   dot2 h w A B n c = sum over the window of A[n,c,.,.] * B[n,c,.,.]; read right to left it is SFB2D.backward ---- *)
+Theorem C05_afb2d_zero :
+  forall (R:Type) (Op:Ops R) (Rth:RingOk Op) (x Gl Gh:@ten R) Lr h0r h1r Lc h0c h1c,
+  2 <= Lr -> 2 <= Lc -> 1 <= tW x -> 1 <= tH x -> 0 < tC x ->
+  let H' := (tH x + Lc - 1)/2 in let W' := (tW x + Lr - 1)/2 in
+  tN Gl = tN x -> tC Gl = tC x -> tH Gl = H' -> tW Gl = W' ->
+  tN Gh = tN x -> tC Gh = 3 * tC x -> tH Gh = H' -> tW Gh = W' ->
+  is_ok (AFB2D_fwd Op x Lr h0r h1r Lc h0c h1c M_ZERO) (fun r =>
+  is_ok (AFB2D_bwd Op (tH x) (tW x) Gl Gh Lr h0r h1r Lc h0c h1c M_ZERO) (fun dx =>
+    tN dx = tN x /\ tC dx = tC x /\ tH dx = tH x /\ tW dx = tW x /\
+    forall n c, 0 <= c < tC x ->
+      radd Op (radd Op (radd Op (dot2 Op H' W' (fst r) Gl n c) (dot2 Op H' W' (unbind3 0 (snd r)) (unbind3 0 Gh) n c))
+                       (dot2 Op H' W' (unbind3 1 (snd r)) (unbind3 1 Gh) n c)) (dot2 Op H' W' (unbind3 2 (snd r)) (unbind3 2 Gh) n c)
+      = dot2 Op (tH x) (tW x) x dx n c)).
+Proof. exact @AFB2D_zero_adjoint. Qed.
+Print Assumptions C05_afb2d_zero.
+(* periodization, even sizes at least the filter lengths (odd or shorter: known findings) *)
+Theorem C05_afb2d_per :
+  forall (R:Type) (Op:Ops R) (Rth:RingOk Op) (x Gl Gh:@ten R) Lr h0r h1r Lc h0c h1c,
+  2 <= Lr -> Lr mod 2 = 0 -> 2 <= Lc -> Lc mod 2 = 0 ->
+  tW x mod 2 = 0 -> Lr <= tW x -> tH x mod 2 = 0 -> Lc <= tH x -> 0 < tC x ->
+  let H' := tH x / 2 in let W' := tW x / 2 in
+  tN Gl = tN x -> tC Gl = tC x -> tH Gl = H' -> tW Gl = W' ->
+  tN Gh = tN x -> tC Gh = 3 * tC x -> tH Gh = H' -> tW Gh = W' ->
+  is_ok (AFB2D_fwd Op x Lr h0r h1r Lc h0c h1c M_PER) (fun r =>
+  is_ok (AFB2D_bwd Op (tH x) (tW x) Gl Gh Lr h0r h1r Lc h0c h1c M_PER) (fun dx =>
+    tN dx = tN x /\ tC dx = tC x /\ tH dx = tH x /\ tW dx = tW x /\
+    forall n c, 0 <= c < tC x ->
+      radd Op (radd Op (radd Op (dot2 Op H' W' (fst r) Gl n c) (dot2 Op H' W' (unbind3 0 (snd r)) (unbind3 0 Gh) n c))
+                       (dot2 Op H' W' (unbind3 1 (snd r)) (unbind3 1 Gh) n c)) (dot2 Op H' W' (unbind3 2 (snd r)) (unbind3 2 Gh) n c)
+      = dot2 Op (tH x) (tW x) x dx n c)).
+Proof. exact @AFB2D_per_adjoint. Qed.
+Print Assumptions C05_afb2d_per.
 
 (* which gradients SFB*.backward returns (after the fix): everything requested *)
 Theorem C05_subsets : forall need_low need_high : bool,
